@@ -588,6 +588,9 @@ func (m *Machine) forkX(conds []*Term, allFeasible bool) int {
 		m.addPC(conds[d.choice], true)
 		return d.choice
 	}
+	if len(conds) > 16 && os.Getenv("GOSMT_DEBUG") != "" {
+		fmt.Printf("BIGFORK %d alternatives%s\n", len(conds), m.where())
+	}
 	if len(m.path) > 6000 {
 		panic(&pathEnd{endUnwind, "more than 6000 decisions on one path"})
 	}
